@@ -298,7 +298,8 @@ MANIFEST = {
             "permuted walls and its thickness covers every wall core; the pressure integrand contracts "
             "over the field axis and integrates over the point axis (invariant under permuting fields, "
             "symbolic gradients); Fields accessors follow the points x fields layout."
-            " Profile and gradient are covariant under moving the origin (z -> z+a, offsets -> offsets + a/L), the gauge freedom that makes the pinned first offset independent of the field order.",
+            " Profile and gradient are covariant under moving the origin (z -> z+a, offsets -> offsets + a/L), the gauge freedom that makes the pinned first offset independent of the field order."
+            " The bounded minimisation gives every free field the same configured window (offset bounds include negative values).",
     "note": "Kernel level only: the agreement of two complete relabelled runs is numerical and outside; "
             "per-field finite-difference scales are exact on polynomials for any step (C19), so they "
             "cannot break covariance of the derivative values.",
